@@ -136,6 +136,7 @@ pub fn gen(c: &Chain, cfg: &Cfg, m: &Menu, rng: &mut Rng, kind: &str) -> Option<
         "claim" => exec(&u, "reward", json!({"k": "claim_rewards", "recipient": if rng.chance(1, 4) { v.clone() } else { String::new() }}), json!([])),
         "ugi" => exec("updater", "hub", json!({"k": "update_global_index", "hooks": 0}), json!([])),
         "advance" => json!({"k": "advance", "dt": *rng.pick(&m.dts)}),
+        "advance_big" => json!({"k": "advance", "dt": *rng.pick(&[86400u64, 90000, 200000])}),
         "slash" => json!({"k": "slash", "v": 1 + rng.below(cfg.nv), "n": *rng.pick(&m.slash_div)}),
         "slash_unb" => json!({"k": "slash_unb", "v": 1 + rng.below(cfg.nv), "n": *rng.pick(&m.slash_div)}),
         "accrue" => {
